@@ -55,6 +55,22 @@ func (h *H) phaseGolden() {
 			// … but the corpus no longer covers that record kind: a lost tie is a harness failure
 			// (regenerate golden.go with C07_DUMP_GOLDEN=1 once the type change is accepted)
 			res.Hit("golden:skipped-type-changed:" + gr.name)
+			// … unless the change makes the OLD record unreadable or read as ANOTHER concrete type
+			// (a renumbered registry tag): that is a failing input, not just a stale corpus
+			if b, herr := hex.DecodeString(gr.hex); herr == nil {
+				back, err := unmarshalAs(t, b)
+				_, want, isIface := strings.Cut(gr.name, "/")
+				switch {
+				case err != nil:
+					res.Violate(lib.Violation{Sig: "record-of-earlier-version-unreadable-" + gr.name,
+						What:   "a " + gr.name + " record written by the pinned version no longer decodes: " + err.Error(),
+						Replay: h.spec("golden", i, map[string]any{"type": gr.name, "hex": clip(gr.hex)})})
+				case isIface && back.Kind() == reflect.Interface && !back.IsNil() && back.Elem().Type().Elem().Name() != want:
+					res.Violate(lib.Violation{Sig: "record-of-earlier-version-reads-as-another-type-" + gr.name,
+						What:   "a " + gr.name + " record written by the pinned version now decodes as " + back.Elem().Type().Elem().Name(),
+						Replay: h.spec("golden", i, map[string]any{"type": gr.name, "hex": clip(gr.hex)})})
+				}
+			}
 			res.Fatalf("golden corpus is stale for %s: the record type changed since the corpus was generated", gr.name)
 			continue
 		}
